@@ -17,6 +17,7 @@ DELS = {
     "Dall": ("delete from t", lambda r: True),
 }
 OPS = list(B) + list(DELS) + ["C", "R"]
+CHURN = ["I1", "I2", "Dall", "C", "R"]
 
 
 def depth(tier):
@@ -54,6 +55,11 @@ def cases(tier):
             ops = OPS if engine == "disk" else [o for o in OPS if o not in ("C", "R")]
             for h in U.seqs(ops, d, d):
                 yield {"pk": pk, "engine": engine, "layout": layout, "history": list(h)}
+            if engine == "disk":
+                # non-initial start state: two row-sets deleted completely and compacted away (only delete vectors of
+                # vanished row-sets could be left); histories of d-1 further operations from there
+                for h in U.seqs(ops, d - 1, d - 1):
+                    yield {"pk": pk, "engine": engine, "layout": layout, "history": CHURN + list(h)}
 
 
 def judge(chk, case, r, seen_prefix, states):
@@ -131,7 +137,7 @@ def judge(chk, case, r, seen_prefix, states):
 def run(tier, seed):
     d = depth(tier)
     chk = core.Check("C07", tier, "model_checking",
-                     f"all {len(OPS)}^{d} histories of depth {d} (every prefix judged once) over ops {OPS} x {{pk, no pk}} x "
+                     f"all {len(OPS)}^{d} histories of depth {d} from the empty table and all {len(OPS)}^{d - 1} histories of depth {d - 1} from the churned start state {CHURN} (disk) (every prefix judged once) over ops {OPS} x {{pk, no pk}} x "
                      "{memory (no C/R), disk layouts}; oracle after every step: multiset(select *) == plain-list model, reported "
                      "DML count == model count; final ORDER BY k scan sorted and complete. non-trivial = history contains a delete, compaction or reopen",
                      seed)
